@@ -26,10 +26,11 @@ THEOREMS = [
     'Pyiga.Props.C15.sparsity_from_kvs',
     'Pyiga.Props.C15.generator_entry_spec', 'Pyiga.Props.C15.generator_entry_2_spec',
     'Pyiga.Props.C15.sequential_bidx_as_coded_wrong', 'Pyiga.Props.C15.reorder_entry',
+    'Pyiga.Props.C15.kron_data_layout',
     'Pyiga.Props.C15.matvec_refines', 'Pyiga.Props.C15.asmatrix_preserves_matvec', 'Pyiga.Props.C15.matvec_length',
 ]
 MODULES = ['Pyiga.Model.Index', 'Pyiga.Model.MLMatrix', 'Pyiga.Proofs.Index', 'Pyiga.Proofs.MLMatrix',
-           'Pyiga.Proofs.MLMatrix2', 'Pyiga.Proofs.MLRows', 'Pyiga.Proofs.MLSparsity', 'Pyiga.Proofs.MLMatvec', 'Pyiga.Proofs.MLGenerator', 'Pyiga.Props.C15']
+           'Pyiga.Proofs.MLMatrix2', 'Pyiga.Proofs.MLRows', 'Pyiga.Proofs.MLSparsity', 'Pyiga.Proofs.MLMatvec', 'Pyiga.Proofs.MLGenerator', 'Pyiga.Proofs.MLKron', 'Pyiga.Props.C15']
 
 
 def fmt_pairs(I, J):
